@@ -1,5 +1,5 @@
 \* GENERATED by gen_uricmp_cfgs.py
-\* all ordered pairs over parameter and header lists (one core), plain and with names / values re-cased.
+\* all ordered pairs over parameter and header lists (one core), plain / reversed / names and values re-cased.
 SPECIFICATION Spec
 CONSTANTS
   OffsMod = 65536
@@ -10,11 +10,11 @@ CONSTANTS
   PwI = {1}
   HostI = {1}
   PortI = {1}
-  PNameI = {1, 2, 7}
+  PNameI = {2, 7}
   PValI = {1, 2}
   KP = 2
   HNameI = {1, 3}
-  HValI = {2}
+  HValI = {2, 4}
   KH = 1
   XNameI = {}
   XValI = {}
@@ -22,7 +22,7 @@ CONSTANTS
   RCMasks = {0, 28}
   RCModes = {0}
   Swaps = {0}
-  Revs = {0}
+  Revs = {0, 1}
   Dups = FALSE
 INVARIANTS Emit Reflexive Symmetric CaseInsensitive OrderInsensitive FlagMonotone EntryPointsAgree DemandOnModel GenSane
 CHECK_DEADLOCK FALSE
